@@ -81,3 +81,22 @@ func VerifC11PriceToTickBands() {
 	vs.Reach("price-above-unit", price > 1_000_000_000)
 	vs.Reach("price-below-unit", price < 1_000_000_000)
 }
+
+// VerifC11TickIsExact reports price(tick) <= price < price(tick+1) in X96 fixed point with the real tickToPriceX96
+// (tick is the offset-free tick). Used on concrete prices by the encoder harnesses of x/feeds and x/tunnel.
+func VerifC11TickIsExact(price uint64, offsetTick uint64) bool {
+	t := int64(offsetTick) - Offset
+	lo, err := tickToPriceX96(t)
+	if err != nil {
+		return false
+	}
+	target := new(big.Int).Mul(new(big.Int).SetUint64(price), q96)
+	if lo.Cmp(target) > 0 {
+		return false
+	}
+	if t == MaxTick {
+		return true
+	}
+	hi, err := tickToPriceX96(t + 1)
+	return err == nil && hi.Cmp(target) > 0
+}
